@@ -627,7 +627,23 @@ pub fn run_history(c: &VCase, rec: &Rec, value_clauses: bool) -> Result<HistoryS
                     if !p_sum.is_zero() {
                         st.loans_ok_with_protocol_fee += 1;
                     }
-                    let after = vw.view().map_err(|e| Fail::new(format!("vault queries failed: {e}")))?;
+                    let after = match vw.view() {
+                        Ok(v) => v,
+                        Err(e) => {
+                            // pending fees above the balance: the extreme form of the nested-loan fee
+                            // recovery (the ledger holds both loans' protocol fees, the balance only
+                            // what the borrower left behind). The vault is unusable afterwards, so the
+                            // history ends here.
+                            if loans.len() > 1 && e.contains("exceed the vault balance") {
+                                rec.known_or_fail(
+                                    "vault-nested-loan-fee-recovery",
+                                    format!("step {step}: loan transaction {loans:?} succeeded and left the vault with {e}"),
+                                )?;
+                                return Ok(st);
+                            }
+                            return Err(Fail::new(format!("step {step}: vault queries failed after a loan: {e}")));
+                        }
+                    };
                     ensure!(
                         vw.loan_counter() == Some(0),
                         "step {step}: loan counter is {:?} after a completed loan transaction",
